@@ -260,10 +260,13 @@ def used_baa_ops(repo: str):
 INJECTED = {
     # unit -> (crate dir, file that receives the #[cfg(kani)] module, inject file, {tier: [harness names]}, bound text)
     "dse_delete_entries": ("patronus-dse", "patronus-dse/src/value_summary.rs", "kl/inject/value_summary.rs",
-                           {"quick": ["delete_entries_n0", "delete_entries_n1", "delete_entries_n2", "delete_entries_n3", "delete_entries_requires_is_needed"],
-                            "thorough": ["delete_entries_n0", "delete_entries_n1", "delete_entries_n2", "delete_entries_n3", "delete_entries_n4",
-                                         "delete_entries_requires_is_needed"]},
+                           {"quick": ["delete_entries_n0", "delete_entries_n1", "delete_entries_n2", "delete_entries_n3"],
+                            "thorough": ["delete_entries_n0", "delete_entries_n1", "delete_entries_n2", "delete_entries_n3", "delete_entries_n4"]},
                            "entries.len() <= 3 (quick) / <= 4 (thorough; n = 5 exhausts the memory budget of the back end); contents and the ascending delete list are symbolic"),
+    "smt_lexer": ("patronus", "patronus/src/smt/parser.rs", "kl/inject/smt_lexer.rs",
+                  {"quick": ["lexer_total_n1", "lexer_total_n2", "lexer_total_n3"],
+                   "thorough": ["lexer_total_n1", "lexer_total_n2", "lexer_total_n3", "lexer_total_n4", "lexer_total_n5"]},
+                  "input text of <= 3 (quick) / <= 5 (thorough) bytes, every byte value"),
     "meta_fixed_point": ("patronus", "patronus/src/expr/meta.rs", "kl/inject/meta.rs",
                          {"quick": ["get_fixed_point_n2", "get_fixed_point_n4", "get_fixed_point_n6"],
                           "thorough": ["get_fixed_point_n2", "get_fixed_point_n4", "get_fixed_point_n6", "get_fixed_point_n8"]},
